@@ -1657,6 +1657,10 @@ class Array:
 
         # labels: replace non-set labels with '?#' (*before* transpose
         labels = [(l if l is not None else '?' + str(i)) for i, l in enumerate(self._labels)]
+        for i, l in enumerate(self._labels):
+            # avoid a clash of the placeholder with pipe labels generated by a previous combine_legs
+            while l is None and '(' + labels[i] + ')' in self._labels:
+                labels[i] = '?' + labels[i]
         # transpose if necessary
         if transp != tuple(range(self.rank)):
             res = self.copy(deep=False)
